@@ -294,6 +294,23 @@ def _classify_value(eng, fd, pl, bi, line, depth, payload=False):
         if callee in PASS_THROUGH and x['args'] and x['args'][0]['k'] in ('copy', 'move'):
             return _classify_value(eng, fd, x['args'][0]['pl'], bi, line, depth + 1, payload and callee in ('std::ops::Try::branch', 'std::result::Result::<T, E>::map_err'))
         short = callee.split('::')[-1]
+        # `iter.map(F).collect::<Result<_, _>>()` / try_fold / try_for_each: success means F succeeded on every item.  F given as a function
+        # value is a delegation to that function (items standing for its argument); F given as a *parameter* is decided by the caller's argument.
+        if callee in ('std::iter::Iterator::collect', 'std::iter::Iterator::try_for_each', 'std::iter::Iterator::sum', 'std::iter::Iterator::product') \
+                and x['args'] and x['args'][0]['k'] in ('copy', 'move') and not x['args'][0]['pl'].get('p') and depth < 10:
+            dm = fd.defs.get(x['args'][0]['pl']['l'], [])
+            if len(dm) == 1 and dm[0][0] == 'call' and (dm[0][2].get('callee') or '') == 'std::iter::Iterator::map' and len(dm[0][2]['args']) == 2:
+                m = dm[0][2]
+                it, F = m['args'][0], m['args'][1]
+                if F.get('k') == 'const' and F.get('fn') in eng.prog.bodies:
+                    return Gate('deleg', F['fn'], [fd.read_op(it)], body.path, bi, x.get('line', line), callee=F['fn'], args=[it])
+                if F.get('k') in ('copy', 'move') and not F['pl'].get('p'):
+                    r0 = fd.resolve_place(F['pl'])[0]
+                    if fd.is_param(r0) and body.kind != 'Closure':
+                        g = Gate('fnparam', 'function parameter %s applied to every item' % body.local_name(r0), [fd.read_op(it)], body.path, bi, x.get('line', line),
+                                 args=[it])
+                        g.param = r0
+                        return g
         # quantified predicates over an iteration: besides the call itself (whose polarity the quantifier rules read), what the predicate tests
         if callee in ('std::iter::Iterator::any', 'std::iter::Iterator::all', 'std::iter::Iterator::find', 'std::iter::Iterator::position') and len(x['args']) == 2 \
                 and x['args'][1]['k'] in ('copy', 'move') and not x['args'][1]['pl'].get('p') and depth < 10:
@@ -482,7 +499,28 @@ class GateAnalysis:
             lifted = []
             extra = [[]]
             for g in cp['gates']:
-                if g.param is not None and g.param - 1 < len(args) and args[g.param - 1]['k'] in ('copy', 'move') and depth < 6:
+                if g.kind == 'fnparam' and g.param is not None and g.param - 1 < len(args) and depth < 6:
+                    F = args[g.param - 1]
+                    if F.get('k') == 'const' and F.get('fn') in self.eng.prog.bodies:
+                        # the function handed in decides: its accept paths, first in the callee's terms (items stand for its argument), then in ours
+                        cfd = self.eng.fndep(callee)
+                        alts = []
+                        for alt in (self._lift_paths(cfd, F['fn'], g.args, g.dom, _stack, depth + 1) or [[]]):
+                            la = []
+                            for g3 in alt:
+                                ops3 = []
+                                for o in g3.operands:
+                                    oo = set()
+                                    for a in o:
+                                        oo |= fd._inst_atom(a, args)
+                                    ops3.append(oo)
+                                n3 = Gate(g3.kind, g3.what, ops3, g3.fn, g3.block, g3.line, g3.callee, None, g3.edge, g3.const_ops)
+                                n3.truth, n3.dom, n3.quant = g3.truth, g3.dom and dom, g3.quant
+                                la.append(n3)
+                            alts.append(la)
+                        extra = [e + a for e in extra for a in alts][:64]
+                        continue
+                if g.kind != 'fnparam' and g.param is not None and g.param - 1 < len(args) and args[g.param - 1]['k'] in ('copy', 'move') and depth < 6:
                     g2 = _classify_value(self.eng, fd, args[g.param - 1]['pl'], g.block, g.line, 0)
                     subs = []
                     for s2 in self._flatten(g2):
